@@ -116,6 +116,12 @@ def si_histories(run, tier, rng):
         # where a short utterance can be absorbed entirely as context
         cfgs = [c for i, c in enumerate(cfgs)
                 if i % 3 == 0 or (c["S"] >= 3 and c["T"] - (c["S"] if c["style"] == "centered" else 0) > 0)]
+    # centered computers whose filters reach at least one frame shift to either side (translation >= shift > 2): an
+    # utterance of a single sample is then absorbed without a frame and leaves pending samples behind
+    for (S_, M_) in ((3, 9), (4, 9), (4, 11)):
+        L_ = M_ + S_ - 1
+        for D_ in sorted({L_, gen_mc.nextpow2(L_)}):
+            cfgs.append(dict(style="centered", S=S_, M=M_, T=M_ // 2, D=D_, left=-(M_ // 2), length=M_))
     traces, meta, tid = [], {}, 0
     for c in cfgs:
         taps = [list(nprng.randint(-3, 4, size=c["length"]).astype(float) + 0.5)]
